@@ -380,6 +380,7 @@ type c17WB struct {
 	firstRead map[int]string // id -> canonical definition when first seen
 	firstLine map[int]int
 	issued    map[string]int // encoded request -> id first returned
+	noColOracle bool          // <cols> of the opened file overlap: GetColStyle / GetCellStyle follow different entries
 	loose     bool            // opened from a file whose count attributes differ from the element counts
 	prevCnt   map[string][2]int
 	dupCur    map[string]bool // request is a plain currency format whose code was already in numFmts when first registered
@@ -538,6 +539,97 @@ func (h *c17H) doResetCounts(line string, a []int) {
 	h.wb.nxf = nxf
 	h.wb.prevCnt = c17ParseCounts(counts)
 	h.r.Stat("case:count-attributes-differ")
+	for id := 0; id < nxf; id++ {
+		if e, ok := h.getEnc(id); ok {
+			h.wb.firstRead[id] = c17Canon(e)
+			h.wb.firstLine[id] = ln
+		}
+	}
+}
+
+// c17OpenWithCols reopens NewFile()'s package with a <cols> element holding the given range entries.
+func c17OpenWithCols(ranges [][3]int) (*xl.File, error) {
+	f := xl.NewFile()
+	buf, err := f.WriteToBuffer()
+	f.Close()
+	if err != nil {
+		return nil, err
+	}
+	zr, err := zip.NewReader(bytes.NewReader(buf.Bytes()), int64(buf.Len()))
+	if err != nil {
+		return nil, err
+	}
+	var cols strings.Builder
+	cols.WriteString("<cols>")
+	for _, r := range ranges {
+		fmt.Fprintf(&cols, `<col min="%d" max="%d" width="9.14" style="%d"/>`, r[0], r[1], r[2])
+	}
+	cols.WriteString("</cols>")
+	var out bytes.Buffer
+	zw := zip.NewWriter(&out)
+	for _, zf := range zr.File {
+		rc, err := zf.Open()
+		if err != nil {
+			return nil, err
+		}
+		data, _ := io.ReadAll(rc)
+		rc.Close()
+		if zf.Name == "xl/worksheets/sheet1.xml" {
+			x := string(data)
+			if !strings.Contains(x, "<sheetData") {
+				return nil, fmt.Errorf("sheet1.xml: no sheetData")
+			}
+			data = []byte(strings.Replace(x, "<sheetData", cols.String()+"<sheetData", 1))
+		}
+		w, err := zw.Create(zf.Name)
+		if err != nil {
+			return nil, err
+		}
+		w.Write(data)
+	}
+	zw.Close()
+	return xl.OpenReader(bytes.NewReader(out.Bytes()))
+}
+
+func c17ParseCols(spec string) [][3]int {
+	var out [][3]int
+	for _, e := range strings.Split(spec, ";") {
+		var a, b, st int
+		if n, _ := fmt.Sscanf(e, "%d-%d:%d", &a, &b, &st); n == 3 {
+			out = append(out, [3]int{a, b, st})
+		}
+	}
+	return out
+}
+
+func (h *c17H) doResetCols(line, spec string) {
+	if h.wb != nil && h.wb.f != nil {
+		h.wb.f.Close()
+	}
+	ranges := c17ParseCols(spec)
+	f, err := c17OpenWithCols(ranges)
+	must(err)
+	h.wb = &c17WB{f: f, firstRead: map[int]string{}, firstLine: map[int]int{}, issued: map[string]int{}, dupCur: map[string]bool{}, cell: map[c17Key]int{}, row: map[int]int{}, col: map[int]int{}}
+	ln := h.op(line, "ok "+xl.VerifC17DumpGrid(f, "Sheet1"))
+	_, nxf, _ := c17Counts(f)
+	h.wb.nxf = nxf
+	h.r.Stat("case:cols-with-ranges")
+	// the column level of the file: the first covering entry with a non-zero style
+	for c := 1; c <= 40; c++ {
+		for _, r := range ranges {
+			if r[0] <= c && c <= r[1] && r[2] != 0 {
+				h.wb.col[c] = r[2]
+				break
+			}
+		}
+	}
+	for i := range ranges {
+		for j := i + 1; j < len(ranges); j++ {
+			if !(ranges[i][1] < ranges[j][0] || ranges[j][1] < ranges[i][0]) {
+				h.wb.noColOracle = true
+			}
+		}
+	}
 	for id := 0; id < nxf; id++ {
 		if e, ok := h.getEnc(id); ok {
 			h.wb.firstRead[id] = c17Canon(e)
@@ -1017,7 +1109,7 @@ func (h *c17H) doGetCol(line string, c int) {
 		return
 	}
 	ln := h.op(line, fmt.Sprintf("ok %d S=%d", sid, h.wb.col[c]))
-	if sid != h.wb.col[c] {
+	if sid != h.wb.col[c] && !h.wb.noColOracle {
 		h.r.Fail("resolve:getcol", fmt.Sprintf("GetColStyle(%s) = %d, model says %d", n, sid, h.wb.col[c]), ln, h.replay())
 	}
 }
@@ -1028,7 +1120,7 @@ func (h *c17H) exec(line string) {
 	if len(w) == 0 || strings.HasPrefix(w[0], "#") {
 		return
 	}
-	if h.wb == nil && w[0] != "reset" && w[0] != "resetc" && w[0] != "decl" {
+	if h.wb == nil && w[0] != "reset" && w[0] != "resetc" && w[0] != "resetcols" && w[0] != "decl" {
 		h.doReset()
 	}
 	ints := func(from int) []int {
@@ -1042,6 +1134,8 @@ func (h *c17H) exec(line string) {
 	switch {
 	case w[0] == "reset":
 		h.doReset()
+	case w[0] == "resetcols" && len(w) == 2:
+		h.doResetCols(line, w[1])
 	case w[0] == "resetc" && len(w) == 5:
 		h.doResetCounts(line, ints(1))
 	case w[0] == "decl":
@@ -1586,6 +1680,12 @@ func (h *c17H) genCaseFrom(rng *Rng, nops int, gridHeavy bool, resetLine string)
 		return
 	}
 	h.exec(resetLine)
+	if strings.HasPrefix(resetLine, "resetcols") {
+		for c := 1; c <= 14; c++ {
+			h.exec(fmt.Sprintf("getcol %d", c))
+			h.exec(fmt.Sprintf("getcell %d %d", c, rng.Range(1, 3)))
+		}
+	}
 	pal := c17GenPalette(rng)
 	var reqs []string
 	for i := 0; i < nops; i++ {
@@ -1809,6 +1909,34 @@ func runC17(r *Run, rng *Rng, replay string) {
 		nReg, nGrid, nops, nTwinBases = 3000, 1800, 40, 60
 	}
 	h.twins(rng, nTwinBases)
+	// worksheets opened from a file whose <cols> hold ranges (disjoint, as the format requires)
+	nCols := 30
+	if r.Tier == "thorough" {
+		nCols = 300
+	}
+	for i := 0; i < nCols; i++ {
+		var parts []string
+		c := rng.Range(1, 3)
+		for k := rng.Range(1, 4); k > 0 && c <= 12; k-- {
+			w := rng.Range(0, 3)
+			parts = append(parts, fmt.Sprintf("%d-%d:%d", c, c+w, rng.Range(0, 3)))
+			c += w + 1 + rng.Range(0, 2)
+		}
+		reset := "resetcols " + strings.Join(parts, ";")
+		h.genCaseFrom(rng, rng.Range(10, nops), true, reset)
+	}
+	// overlapping entries (not valid in a file): the two lookups follow different entries; model vs code only
+	h.exec("resetcols 1-3:5;2-2:7;4-6:0;5-5:2")
+	for c := 1; c <= 7; c++ {
+		h.exec(fmt.Sprintf("getcell %d 1", c))
+		h.exec(fmt.Sprintf("getcol %d", c))
+	}
+	h.exec("setcol 2 5 0")
+	h.exec("grid")
+	for c := 1; c <= 7; c++ {
+		h.exec(fmt.Sprintf("getcell %d 1", c))
+		h.exec(fmt.Sprintf("getcol %d", c))
+	}
 	// style sheets whose count attributes differ from the element counts (opened from a file)
 	nLoose := 40
 	if r.Tier == "thorough" {
